@@ -40,7 +40,8 @@ CHECKS = {
         text='Seeded histories of legal and rejected steps on each simulator with a step_multiple '
              'twin: inspect vs trace after every step, trace length vs accepted steps, planted '
              'wrong expected_outputs cells vs the parsed report, print_vcd/print_trace parsed '
-             'back, rtl_assert firing cycle predicted by the reference model, out-of-range inputs '
+             'back at the end and, in a third of the worlds, also in the middle of the run, '
+             'rtl_assert firing cycle predicted by the reference model, out-of-range inputs '
              '(negative and too large) refused by all three simulators. Sampling, not proof.',
         note='Trusted: the VCD/print_trace/report readers in verifsim/props/c15.py; RefSim for '
              'the assertion cycle.',
@@ -154,7 +155,9 @@ CHECKS = {
              '/ asynchronous reset from garbage, with a second reset at a scheduler-chosen cycle; '
              'the testbench text made from a Simulation / FastSimulation / CompiledSimulation '
              'trace is read back and checked for input replay, register and memory start state, '
-             'and replayed end to end on VSim. Sampling, not proof.',
+             'and replayed end to end on VSim; in part of the worlds another simulator was first '
+             'constructed on the same SimulationTrace from another start state and abandoned. '
+             'Sampling, not proof.',
         note='Trusted: VSim and the testbench reader (verifsim/vsim.py) -- no external Verilog '
              'tool exists in the sandbox, so agreement is with IEEE 1364-2001 semantics as '
              'implemented there; RefSim. The fault space is thin (schedules, trace source, resets).',
